@@ -62,14 +62,14 @@ SPECIAL_RES = {"Idm": "avfs.IdentityMgr", "SameFile": "bool", "SetIdm": "error",
 
 def argtok(kind, name):
     return {"s": "wrTokS(%s)", "i": "strconv.Itoa(%s)", "i64": "strconv.FormatInt(%s, 10)", "m": "strconv.Itoa(int(%s))",
-            "t": "strconv.FormatInt(%s.UnixNano(), 10)", "u8": "strconv.Itoa(int(%s))", "B": "wrTokS(string(%s))",
+            "t": "wrTimeTok(%s)", "u8": "strconv.Itoa(int(%s))", "B": "wrTokS(string(%s))",
             "L": "strconv.Itoa(len(%s))", "feat": "strconv.FormatUint(uint64(%s), 10)"}[kind] % name
 
 
 def parse(kind, i):
     a = "a[%d]" % i
     return {"s": "wrStr(%s)" % a, "i": "wrInt(%s)" % a, "i64": "int64(wrInt(%s))" % a, "m": "fs.FileMode(wrInt(%s))" % a,
-            "t": "time.Unix(0, int64(wrInt(%s)))" % a, "u8": "uint8(wrInt(%s))" % a, "B": "[]byte(wrStr(%s))" % a,
+            "t": "wrTime(%s)" % a, "u8": "uint8(wrInt(%s))" % a, "B": "[]byte(wrStr(%s))" % a,
             "L": "make([]byte, wrInt(%s))" % a, "feat": "avfs.Features(wrInt(%s))" % a}[kind]
 
 
@@ -111,6 +111,9 @@ for typ, recv, methods, getters in (("recVFS", "p", VFS, GETTERS_V), ("recFile",
             args = "wrTokList(a0)"
         else:
             args = "[]string{%s}" % ", ".join(argtok(k, n) for n, k in zip(pn, params) if k not in ("fi", "idm", "user", "walkfn"))
+        largs = {"SetIdm": "[]string{wrIdmTok(a0)}", "SetUser": "[]string{\"_\"}", "WalkDir": "[]string{wrTokS(a0)}"}.get(name, args)
+        # a panic of the base is logged as its answer and passed on (the model then forwards it like any answer)
+        w("\tdefer p.rec.panicLog(p.id, \"%s\", %s)" % (name, largs))
         if res == "special":
             if name == "SetIdm":
                 w("\tr0 := %s\n\tp.rec.log(p.id, \"SetIdm\", []string{wrIdmTok(a0)}, wrAnsOf(\"u\", r0, -1))\n\treturn r0\n}\n" % call)
